@@ -228,6 +228,7 @@ func runC19(c *Ctx) {
 	_ = tls.Config{}
 	c19Semantics(c)
 	c19CheckOrigin(c)
+	runResizeKeepsDeadline(c)
 	// an accepted READQ-LEN stays in force through everything that re-creates a queue (SUB replaces its queue on every
 	// Unsubscribe and resize; contexts inherit the socket's length): the SUB machine of C06 with its small queue lengths
 	n := 15
